@@ -68,7 +68,8 @@ int main(int argc, char** argv) {
 				std::string a2 = d == 2 ? guard([&] { HypervolumeCalculator2D hv; return num(hv(pts, ref)); }) : "-";
 				std::string a3 = d == 3 ? guard([&] { HypervolumeCalculator3D hv; return num(hv(pts, ref)); }) : "-";
 				std::string hoy = d >= 3 ? guard([&] { HypervolumeCalculatorMDHOY hv; return num(hv(pts, ref)); }) : "-";
-				std::string wfg = guard([&] { HypervolumeCalculatorMDWFG hv; return num(hv(pts, ref)); });
+				// WFG is exponential in the number of dominated points: explicit call only for small sets
+				std::string wfg = n <= 24 ? guard([&] { HypervolumeCalculatorMDWFG hv; return num(hv(pts, ref)); }) : "-";
 				std::cout << "H disp=" << disp << " a2=" << a2 << " a3=" << a3 << " hoy=" << hoy << " wfg=" << wfg << "\n";
 			} else if (query == "K") {
 				if (n == 0) { std::cout << "K empty\n"; continue; }
